@@ -14,6 +14,9 @@ import (
 // input is offered in order and then closed (variant "drain"), or offered in part and then the context is cancelled and
 // the inputs are closed (variant "cancel").  "At rest" is decided by the real clock: nothing observable has happened for
 // `still`.  Windows recorded before that are marked busy (PipeTraceP: obs.quiet = FALSE).
+// FreeQuota is the number of values after which a consumer of a free run stops receiving.
+var FreeQuota = 3000
+
 func RunFree(s Sched, variant string, still time.Duration) Trace {
 	cfg := s.Cfg
 	cfg.Gate, cfg.Twin = false, ""
@@ -59,6 +62,7 @@ func RunFree(s Sched, variant string, still time.Duration) Trace {
 	// waits until every output is closed (true) or nothing has happened for `quiet` (false)
 	rest := func(quiet time.Duration, base int) bool {
 		last, at, t0 := nev(), time.Now(), time.Now()
+		idle := 0
 		for {
 			if time.Since(t0) > 2*quiet+30*time.Second || nev() > 2000000 {
 				restless = true
@@ -66,13 +70,28 @@ func RunFree(s Sched, variant string, still time.Duration) Trace {
 			}
 			time.Sleep(20 * time.Millisecond)
 			if base+closedOuts() >= len(c.outName) {
+				// every output is closed: the goroutines that closed them are on their way out (deferred calls, the
+				// return).  On a loaded machine that takes a moment: wait until none is left, two seconds at most
+				// (a Throttling pacer legitimately stays until the cancel)
 				time.Sleep(50 * time.Millisecond)
+				for t1 := time.Now(); c.liveLib()-c.baseLive > 0 && time.Since(t1) < 2*time.Second; {
+					time.Sleep(20 * time.Millisecond)
+				}
 				return true
 			}
 			if n := nev(); n != last {
 				last, at = n, time.Now()
+				idle = 0
 			} else if time.Since(at) > quiet {
 				return false
+			} else if c.cancelled && c.liveLib()-c.baseLive <= 0 {
+				// cancelled, no library goroutine left and nothing new in the log (seen three times in a row): nothing of the
+				// library can move any more, whether or not a consumer is there to see the outputs closed
+				if idle++; idle >= 3 {
+					return false
+				}
+			} else {
+				idle = 0
 			}
 		}
 	}
@@ -81,7 +100,7 @@ func RunFree(s Sched, variant string, still time.Duration) Trace {
 
 	sub := []Cmd{}
 	for _, o := range c.outName {
-		cmd := Cmd{C: "recvall", O: o, D: 3000} // (a generator never stops by itself: its consumers do, after 3000 values)
+		cmd := Cmd{C: "recvall", O: o, D: FreeQuota} // (a generator never stops by itself: its consumers do, after FreeQuota values)
 		c.issue(&cmd)
 		sub = append(sub, cmd)
 	}
@@ -183,7 +202,21 @@ func RunFree(s Sched, variant string, still time.Duration) Trace {
 		}
 		close(stop)
 		time.Sleep(30 * time.Millisecond)
-		ev := take()
+		// the log is cut and the context cancelled under the log's lock: everything in `ev` was logged before the cancel
+		// (a generator delivers thousands of values in the time between two statements of this function; counted as
+		// "delivered after the cancel" they would fail GenStops on a correct library)
+		c.mu.Lock()
+		ev := append([]Ev{}, c.done...)
+		c.done = c.done[:0]
+		if cut {
+			ev = []Ev{}
+		} else if len(ev) > 14000 {
+			ev = ev[:14000]
+			restless, cut = true, true
+		}
+		c.cancelled = true
+		c.cancel()
+		c.mu.Unlock()
 		nclosed := 0
 		for _, e := range ev {
 			if e.E == "got" && !e.Ok {
@@ -196,8 +229,6 @@ func RunFree(s Sched, variant string, still time.Duration) Trace {
 		if len(pend) > 0 {
 			tr.Wins = append(tr.Wins, Window{Cmd: Cmd{C: "burst", Sub: pend}, Done: []Ev{}, Q: q, Busy: true})
 		}
-		c.cancelled = true
-		c.cancel()
 		cs := []Cmd{{C: "cancel"}}
 		if !c.libOwnsInput() {
 			for i := 0; i < nin; i++ {
